@@ -145,4 +145,65 @@ Section OneHot.
     rewrite HW. rewrite (so_ext (fun c0 => W' (ho o') (hc c0)) (W o')) by (intros; apply HW).
     destruct (mem_z o' (snd e)); ring.
   Qed.
+  (** ** the same, relative to sets of valid outcome / cue ids: all that is needed of the initial weights is that
+      they agree on valid positions (flat kernel memories alias out-of-range positions) *)
+  Definition cues_sat (Pc : Z -> Prop) (es : list event) : Prop := Forall (fun e => Forall Pc (fst e)) es.
+
+  Theorem b2r_onehot_on (Po Pc : Z -> Prop) (ho : Z -> Z) eta es (W W' : wfun) :
+    (forall a b, ho a = ho b -> a = b) -> outs_unique es -> cues_sat Pc es ->
+    (forall o c, Po o -> Pc c -> W' (ho o) c = W o c) ->
+    forall o c, Po o -> Pc c ->
+      b2r_learn R rO rI radd rmul rsub eta (onehot ho) es W' (ho o) c = learn (rw_params eta) es W o c.
+  Proof.
+    intros Hinj Hu Hc. revert W W'.
+    induction es as [|e t IH]; intros W W' HW o c Ho Hcc; [now apply HW|].
+    inversion Hu as [|? ? Hue Hut]; subst. inversion Hc as [|? ? Hce Hct]; subst.
+    unfold b2r_learn in *. cbn [fold_left]. rewrite learn_cons. apply (IH Hut Hct); [|assumption|assumption].
+    intros o' c' Ho' Hc'.
+    unfold b2r_step, RWSpec.step, RWSpec.delta, RWSpec.act, rw_params. cbn [alpha beta1 beta2 lam].
+    rewrite onehot_target by assumption. rewrite HW by assumption.
+    rewrite (so_ext (W' (ho o')) (W o')).
+    - destruct (mem_z o' (snd e)); ring.
+    - intros c0 Hc0. apply HW; [assumption|]. rewrite Forall_forall in Hce. now apply Hce.
+  Qed.
+
+  Theorem r2b_onehot_on (Po Pc : Z -> Prop) (hc : Z -> Z) eta cdims es (W W' : wfun) :
+    (forall a b, hc a = hc b -> a = b) -> NoDup cdims -> cues_in hc cdims es -> cues_sat Pc es ->
+    (forall o c, Po o -> Pc c -> W' o (hc c) = W o c) ->
+    forall o c, Po o -> Pc c ->
+      r2b_learn R rO radd rmul rsub eta eta rI (onehot hc) cdims es W' o (hc c) = learn (rw_params eta) es W o c.
+  Proof.
+    intros Hinj Hnd Hin Hc. revert W W'.
+    induction es as [|e t IH]; intros W W' HW o c Ho Hcc; [now apply HW|].
+    inversion Hin as [|? ? He Ht]; subst. inversion Hc as [|? ? Hce Hct]; subst.
+    unfold r2b_learn in *. cbn [fold_left]. rewrite learn_cons. apply (IH Ht Hct); [|assumption|assumption].
+    intros o' c' Ho' Hc'.
+    unfold r2b_step, vstep, dotv, RWSpec.step, RWSpec.delta, RWSpec.act, rw_params. cbn [alpha beta1 beta2 lam].
+    rewrite (onehot_dot hc (W' o') cdims (fst e) Hnd He), onehot_count by exact Hinj.
+    rewrite HW by assumption. rewrite (so_ext (fun c0 => W' o' (hc c0)) (W o')).
+    - destruct (mem_z o' (snd e)); ring.
+    - intros c0 Hc0. apply HW; [assumption|]. rewrite Forall_forall in Hce. now apply Hce.
+  Qed.
+
+  Theorem r2r_onehot_on (Po Pc : Z -> Prop) (hc ho : Z -> Z) eta cdims es (W W' : wfun) :
+    (forall a b, hc a = hc b -> a = b) -> (forall a b, ho a = ho b -> a = b) ->
+    NoDup cdims -> cues_in hc cdims es -> outs_unique es -> cues_sat Pc es ->
+    (forall o c, Po o -> Pc c -> W' (ho o) (hc c) = W o c) ->
+    forall o c, Po o -> Pc c ->
+      r2r_learn R rO radd rmul rsub eta (onehot hc) (onehot ho) cdims es W' (ho o) (hc c) =
+      learn (rw_params eta) es W o c.
+  Proof.
+    intros Hic Hio Hnd Hin Hu Hc. revert W W'.
+    induction es as [|e t IH]; intros W W' HW o c Ho Hcc; [now apply HW|].
+    inversion Hin as [|? ? He Ht]; subst. inversion Hu as [|? ? Hue Hut]; subst.
+    inversion Hc as [|? ? Hce Hct]; subst.
+    unfold r2r_learn in *. cbn [fold_left]. rewrite learn_cons. apply (IH Ht Hut Hct); [|assumption|assumption].
+    intros o' c' Ho' Hc'.
+    unfold r2r_step, vstep, dotv, RWSpec.step, RWSpec.delta, RWSpec.act, rw_params. cbn [alpha beta1 beta2 lam].
+    rewrite (onehot_target ho o' (snd e) Hio Hue).
+    rewrite (onehot_dot hc (W' (ho o')) cdims (fst e) Hnd He), (onehot_count hc c' (fst e) Hic).
+    rewrite HW by assumption. rewrite (so_ext (fun c0 => W' (ho o') (hc c0)) (W o')).
+    - destruct (mem_z o' (snd e)); ring.
+    - intros c0 Hc0. apply HW; [assumption|]. rewrite Forall_forall in Hce. now apply Hce.
+  Qed.
 End OneHot.
